@@ -636,21 +636,21 @@ class ThreadCheck(LockCheck):
 
 class C04(ThreadCheck):
     lean_module = 'CppUtil.Props.C04'
-    theorems = []
+    theorems = ['CppUtil.Props.c04_collected_is_published', 'CppUtil.Props.c15_free_slot_all_expired', 'CppUtil.Props.c15_unexpired_unique', 'CppUtil.Props.c15_exit_order']
     categories = ['pin']
     kinds = ('epoch',)
 
 
 class C05(ThreadCheck):
     lean_module = 'CppUtil.Props.C05'
-    theorems = []
+    theorems = ['CppUtil.Props.c05_in_range', 'CppUtil.Props.c05_unique', 'CppUtil.Props.c05_stable']
     categories = ['ids']
     kinds = ('id', 'id', 'epoch')
 
 
 class C14(ThreadCheck):
     lean_module = 'CppUtil.Props.C14'
-    theorems = []
+    theorems = ['CppUtil.Props.c14_all_exited_all_free', 'CppUtil.Props.c14_flag_has_holder', 'CppUtil.Props.c14_solo_claim_succeeds', 'CppUtil.Props.c14_release_clears']
     categories = ['idleak']
     stuck_relevant = True
     kinds = ('id', 'id', 'epoch')
@@ -658,14 +658,14 @@ class C14(ThreadCheck):
 
 class C15(ThreadCheck):
     lean_module = 'CppUtil.Props.C15'
-    theorems = []
+    theorems = ['CppUtil.Props.c15_exit_order', 'CppUtil.Props.c15_lifetime', 'CppUtil.Props.c15_free_slot_all_expired', 'CppUtil.Props.c15_unexpired_unique', 'CppUtil.Props.c15_counterexample_original_order']
     categories = ['heartbeat']
     kinds = ('id', 'epoch')
 
 
 class C16(ThreadCheck):
     lean_module = 'CppUtil.Props.C16'
-    theorems = []
+    theorems = ['CppUtil.Props.c16_initial', 'CppUtil.Props.c16_min_le_cur', 'CppUtil.Props.c16_contains_cur_next', 'CppUtil.Props.c16_quiescent', 'CppUtil.Props.c16_head_is_new']
     categories = ['epoch']
     kinds = ('epoch',)
     long_share = 0.15
@@ -673,7 +673,7 @@ class C16(ThreadCheck):
 
 class C17(ThreadCheck):
     lean_module = 'CppUtil.Props.C17'
-    theorems = []
+    theorems = ['CppUtil.Props.c17_list_shape', 'CppUtil.Props.c17_read_back']
     categories = ['list']
     kinds = ('epoch',)
     long_share = 0.15
@@ -684,7 +684,7 @@ class C17(ThreadCheck):
 
 class C20(ThreadCheck):
     lean_module = 'CppUtil.Props.C20'
-    theorems = []
+    theorems = ['CppUtil.Props.c20_published_exact', 'CppUtil.Props.c20_published_unique', 'CppUtil.Props.c20_min_is_smallest']
     categories = ['seqlist', 'seqnodes']
     kinds = ('epoch',)
     seq_share = 1.0
